@@ -407,6 +407,43 @@ def check(prog, run):
     if not _is_reversed(lloop[0].iter):
         run.report(r, "%s:ChainedVisitor.leave:not-reversed" % VIS, le.where(lloop[0]), "leave does not iterate the visitors in reverse order")
 
+    # ---- V6 a traversal method hands back the node it was given
+    r = run.rule("V6", "every method under the enter/children/leave wrapper (`@_visit_method`) ends every execution by returning the node it "
+                       "was given (the parameter, never re-bound, or a local that only ever holds it): only `enter` may delete or replace a "
+                       "node - a traversal method that answers None (or falls off its end) because of what happened to a *child* removes the "
+                       "parent from its own parent and, through the wrapper, skips the parent's `leave`", 25)
+    for name, m in sorted(visitor.methods.items()):
+        decos = [ast.unparse(d) for d in getattr(m.node, "decorator_list", [])]
+        if "_visit_method" not in decos or len(m.params) < 2:
+            continue
+        run.looked_at(m)
+        param = m.params[1]
+        stores = {}
+        for n in own_nodes(m.node):
+            if isinstance(n, ast.Name) and isinstance(n.ctx, (ast.Store, ast.Del)):
+                stores.setdefault(n.id, []).append(n)
+        holders = {param} if param not in stores else set()
+        for n in own_nodes(m.node):
+            if isinstance(n, ast.Assign) and len(n.targets) == 1 and isinstance(n.targets[0], ast.Name) \
+                    and isinstance(n.value, ast.Name) and n.value.id == param and param in holders \
+                    and len(stores.get(n.targets[0].id, [])) == 1:
+                holders.add(n.targets[0].id)
+        try:
+            _ev, exits = boolx.walk_under(m.node, lambda t: None)
+        except ValueError as e:
+            raise AnalysisError("C18.V6: %s: %s" % (name, e))
+        r.instance("%s returns %s" % (name, param))
+        for kind, st, env in exits:
+            if kind == "raise":
+                continue
+            ok = kind == "return" and isinstance(st.value, ast.Name) and st.value.id in holders
+            if not ok:
+                run.report(r, "%s:ASTVisitor.%s:returns-other(%s)" % (VIS, name, norm_stmt(st) if st is not None else "end"), m.where(st) if st is not None else m.where(),
+                           "%s can end with `%s` rather than returning its node `%s`: the node is dropped from (or replaced in) its parent "
+                           "for a reason other than what `enter` answered for it, and its `leave` is skipped"
+                           % (name, norm_stmt(st) if st is not None else "falling off the end", param))
+                break
+
     # ---- V5 map_and_filter
     from .. import typedrule
     typedrule.run_rule(prog, run, "T1", "lang/visitor.py", "a traversal must not raise on any parsed tree", ["py_gql.lang.visitor"], 25)
